@@ -2,81 +2,29 @@ package dbgx
 
 import (
 	"fmt"
-	"strings"
 	"testing"
 
 	"verifharness/sgc"
-
-	"github.com/sdcio/yang-parser/parse"
-	"github.com/sdcio/yang-parser/xpath"
-	"github.com/sdcio/yang-parser/xpath/grammars/expr"
 )
 
-func try(name, text string) {
-	defer func() {
-		if r := recover(); r != nil {
-			fmt.Println("  PANIC", r)
-		}
-	}()
-	_, err := parse.Parse(name, text, nil)
-	fmt.Printf("  %q => %v\n", text[:min(len(text), 60)], err)
-}
-
-func comp(label string, names, texts []string, skip bool) {
-	cnt := map[string]int{}
-	for i := 0; i < 30; i++ {
-		res := sgc.CompileTexts(names, texts, sgc.Opts{Features: sgc.AllFeatures{}, SkipUnknown: skip})
-		d := res.Describe()
-		if len(d) > 150 {
-			d = d[:150]
-		}
-		cnt[d]++
-	}
-	fmt.Println(label, cnt)
-}
-
 func TestX(t *testing.T) {
-	fmt.Println("== line comment at EOF")
-	try("a.yang", "module m {\n namespace \"urn:m\";\n prefix m;\n}\n// end")
-	try("a.yang", "module m {\n namespace \"urn:m\";\n prefix m;\n}\n// end\n")
-	try("a.yang", "module m {\n namespace \"urn:m\";\n prefix m;\n} //")
-	fmt.Println("== % in name")
-	try("a%sb%d.yang", "module x {")
-	fmt.Println("== accessor panic")
-	func() {
-		defer func() {
-			if r := recover(); r != nil {
-				fmt.Println("  PANIC", r)
+	for _, b := range []string{
+		`leaf a { type uint8 { range "1..5 | max"; } }`, `leaf a { type uint8 { range "max"; } }`, `leaf a { type int8 { range "min | 5..10"; } }`, `leaf a { type int8 { range "min"; } }`,
+		`typedef t { type string { length "2..10"; } } leaf a { type t { length "max"; } }`, `typedef t { type string { length "2..10"; } } leaf a { type t { length "min"; } }`,
+		`typedef t { type string { length "2..10"; } } leaf a { type t { length "min | 5 | max"; } }`, `leaf a { type string { length "max"; } }`,
+		`typedef t { type uint8 { range "10..20 | 30..40"; } } leaf a { type t { range "min | 15 | max"; } }`, `leaf a { type uint8 { range "max | 1"; } }`, `leaf a { type uint8 { range "1 | min"; } }`,
+	} {
+		res := sgc.CompileTexts([]string{"m"}, []string{`module m { namespace "urn:m"; prefix m; ` + b + ` }`}, sgc.Opts{Features: sgc.AllFeatures{}})
+		fmt.Printf("%-90s %s\n", b, res.Describe())
+		if res.OK() {
+			ty := res.MS.Child("a").Type()
+			var acc []string
+			for _, v := range []string{"0", "1", "2", "5", "10", "15", "20", "30", "40", "127", "-128", "255", "ab", "abcdefghij", "abcde", "a"} {
+				if ty.Validate(nil, []string{"a"}, v) == nil {
+					acc = append(acc, v)
+				}
 			}
-		}()
-		m, _ := expr.NewExprMachine("1 + 2", nil)
-		res := xpath.NewCtxFromMach(m, nil).Run()
-		ns, err := res.GetNodeSetResult()
-		fmt.Println("  nodeset:", ns, err)
-	}()
-	fmt.Println("== submodule includes itself")
-	comp("self-include", []string{"m", "s"}, []string{`module m { namespace "urn:m"; prefix m; include s; }`, `submodule s { belongs-to m { prefix m; } include s; leaf x { type string; } }`}, false)
-	fmt.Println("== include chain with missing import")
-	comp("chain", []string{"m", "s1", "s2", "s3"}, []string{`module m { namespace "urn:m"; prefix m; include s1; }`,
-		`submodule s1 { belongs-to m { prefix m; } include s2; }`, `submodule s2 { belongs-to m { prefix m; } include s3; }`, `submodule s3 { belongs-to m { prefix m; } import x { prefix x; } }`}, false)
-	fmt.Println("== range part max")
-	comp("range", []string{"m"}, []string{`module m { namespace "urn:m"; prefix m; leaf a { type uint8 { range "1..5 | max"; } } }`}, false)
-	comp("range-max", []string{"m"}, []string{`module m { namespace "urn:m"; prefix m; leaf a { type uint8 { range "max"; } } }`}, false)
-	comp("length-max", []string{"m"}, []string{`module m { namespace "urn:m"; prefix m; typedef t { type string { length "2..10"; } } leaf a { type t { length "max"; } } }`}, false)
-	fmt.Println("== typedef chain status")
-	comp("tdchain", []string{"m"}, []string{`module m { namespace "urn:m"; prefix m; typedef ta { status deprecated; type tb; } typedef tb { status deprecated; type string; } leaf x { status deprecated; type ta; } }`}, false)
-	fmt.Println("== rpc if-feature")
-	res := sgc.CompileTexts([]string{"m"}, []string{`module m { namespace "urn:m"; prefix m; feature f; rpc r { if-feature f; input { leaf x { type string; } } } notification n { if-feature f; leaf y { type string; } } }`}, sgc.Opts{Features: sgc.FeatureSet{}})
-	if res.OK() {
-		for _, mod := range res.MS.Modules() {
-			fmt.Println("  rpcs:", len(mod.Rpcs()), "notifs:", len(mod.Notifications()))
+			fmt.Println("      accepts", acc)
 		}
-	} else {
-		fmt.Println(" ", res.Describe())
 	}
-	fmt.Println("== skipUnknown unbound prefixes")
-	for _, b := range []string{`augment "/xx:foo" { leaf a { type string; } }`, `leaf a { type xx:foo; }`, `container c { uses xx:foo; }`, `feature f; leaf l { if-feature xx:f; type string; }`, `identity i { base xx:b; }`} {
-		comp(b[:12], []string{"m"}, []string{`module m { namespace "urn:m"; prefix m; ` + b + ` }`}, true)
-	}
-	_ = strings.Repeat
 }
